@@ -237,6 +237,12 @@ Proof.
     subst g'. cbn [PoisonModel.step]. rewrite C, F, A. apply Nat.leb_le in LT. rewrite LT. cbn. eauto.
 Qed.
 
+(* is_poisoned(), get_mut() and into_inner() report exactly the flag (poison.get / map_result(poison.borrow())), and
+   the flag is exactly "some guard drop decided to poison, or it was set before" *)
+Theorem observers_report_the_flag s l :
+  is_poisoned s l = failed (L s l) /\ get_mut_err s l = failed (L s l) /\ into_inner_err s l = failed (L s l).
+Proof. repeat split. Qed.
+
 (* exclusion survives poisoning: one owner of write access, and no reader beside it *)
 Theorem write_guard_exclusive s t t' g g' : Reach s ->
   In g (held (T s t)) -> In g' (held (T s t')) -> has_flag (gk g) = true -> has_flag (gk g') = true ->
